@@ -726,6 +726,56 @@ pub fn run(tier: Tier) -> i32 {
             extra: vec![],
         });
     }
+    {
+        let mut sp: Vec<(Vec<String>, Vec<u8>)> = Vec::new();
+        for sh in [vec![5usize], vec![3, 4], vec![2, 3, 2]] {
+            let input = text_of(&labeled(&sh, "lin")).into_bytes();
+            for fill in ["nan", "zero", "minus-one", "inf"] {
+                for extra in [vec![], vec!["--precision", "2"], vec!["-p", "0", "-v"]] {
+                    let mut a: Vec<String> = vec!["fold".into(), "--fill".into(), fill.into()];
+                    a.extend(extra.iter().map(|e| e.to_string()));
+                    sp.push((a, input.clone()));
+                }
+            }
+            sp.push((vec!["fold".into()], input.clone()));
+        }
+        super::spelling_part(&mut rep, "C05", "fold with every fill, with and without a precision", &sp, &scratch);
+    }
+    // the input stored as an npy file of every element type: folded like the same values given as text
+    {
+        let mut nj: Vec<(Vec<usize>, &'static str, u8)> = Vec::new();
+        for shape in [vec![9usize], vec![3, 5], vec![3, 3, 3]] {
+            for (k, descr) in super::NPY_DESCRS.into_iter().enumerate() {
+                nj.push((shape.clone(), descr, [1u8, 2, 3][(k + shape.len()) % 3]));
+            }
+        }
+        let res = par_map(nj.len(), |i| {
+            let (shape, descr, version) = &nj[i];
+            let (npy, text) = super::typed_npy_and_text(shape, descr, *version);
+            let a = run_sfs(&["fold", "--precision", "17"], Stdin::Bytes(text.as_bytes()), &scratch);
+            let b = run_sfs(&["fold", "--precision", "17"], Stdin::Bytes(&npy), &scratch);
+            if a.ok() && b.ok() && a.stdout == b.stdout {
+                None
+            } else {
+                Some((
+                    format!("C05|cli|npy-input-folds-differently|{}", descr.trim_start_matches(['<', '>', '|'])),
+                    format!("shape {shape:?} stored as {descr} (format {version}.0): `sfs fold` gives {} {:?} on the npy file and {} {:?} on the same values as text", b.status_str(), b.stdout_str(), a.status_str(), a.stdout_str()),
+                    J::obj([("kind", J::s("c05-npy-input")), ("shape", J::usizes(shape)), ("descr", J::s(*descr)), ("version", J::Int(*version as i64))]),
+                ))
+            }
+        });
+        for v in res.into_iter().flatten() {
+            rep.violation(v.0, v.1, v.2);
+        }
+        rep.part(Part {
+            name: "cli: fold of npy files of every element type".into(),
+            evaluations: nj.len() as u64,
+            nontrivial: nj.len() as u64,
+            note: "spectra with 1..3 axes stored as f8, f4 and the signed and unsigned integers of 1, 2, 4 and 8 bytes, little- and big-endian, format 1.0 / 2.0 / 3.0 in turn (entries beyond the range of the signed and of the next smaller type): the fold printed with 17 decimals must be that of the same values given as text".into(),
+            exhaustive: true,
+            extra: vec![],
+        });
+    }
     // `fold --output FILE` onto a fresh path and onto a longer existing file: the file must hold exactly what stdout would
     {
         let mut oj: Vec<(Vec<usize>, bool)> = Vec::new();
@@ -811,6 +861,14 @@ pub fn replay(case: &J) -> Option<Vec<String>> {
     let shape = case.get("shape")?.as_usizes()?;
     let lab = case.get("labeling").and_then(|l| l.as_str()).unwrap_or("lin").to_string();
     match case.get("kind")?.as_str()? {
+        "c05-npy-input" => {
+            let scratch = Scratch::new("c05r");
+            let descr = super::NPY_DESCRS.into_iter().find(|d| Some(*d) == case.get("descr").and_then(|x| x.as_str()))?;
+            let (npy, text) = super::typed_npy_and_text(&shape, descr, case.get("version")?.as_i64()? as u8);
+            let a = run_sfs(&["fold", "--precision", "17"], Stdin::Bytes(text.as_bytes()), &scratch);
+            let b = run_sfs(&["fold", "--precision", "17"], Stdin::Bytes(&npy), &scratch);
+            return Some(if a.ok() && b.ok() && a.stdout == b.stdout { vec![] } else { vec![format!("C05|cli|npy-input-folds-differently :: {descr}")] });
+        }
         "c05-route" => {
             let scratch = Scratch::new("c05r");
             let b = |k: &str| matches!(case.get(k), Some(J::Bool(true)));
